@@ -229,3 +229,14 @@ def label_strips(t: T, source: T):
             if idx is not None and idx.op == "attr" and idx.args[1] == "index" and selects(idx.args[0]) and is_strip(x.args[1][0]):
                 exempt.add(x.args[1][0].uid)
     return [x for x in _sub(t) if is_strip(x) and x.uid not in exempt]
+
+
+def zero_over_runtime(t: T):
+    """Sub-terms 0 / x (literal zero numerator, non-constant denominator): algebraically 0 like 0 * x, but NaN where x == 0."""
+    from ..terms import subterms as _sub, const_value as _cv
+    out = []
+    for s in _sub(t):
+        if s.op == "binop" and s.args[0] in ("/", "//") and s.args[1].op == "const" and isinstance(_cv(s.args[1]), (int, float)) \
+                and not isinstance(_cv(s.args[1]), bool) and _cv(s.args[1]) == 0 and s.args[2].op != "const":
+            out.append(s)
+    return out
